@@ -1,5 +1,10 @@
 package grammar
 
+import (
+	"fmt"
+	"strings"
+)
+
 // CustomSpec exercises the custom unmarshalers of the spec model: raw numbers, enums and defaults of
 // every JSON type, every additionalProperties form, patternProperties, x-ogen-* extensions, examples.
 const CustomSpec = `{"openapi":"3.0.3","info":{"title":"t","version":"1","x-ogen-custom":{"k":[1,"a",null]}},
@@ -154,7 +159,8 @@ const NestedCompositionsSpec = `{"openapi": "3.0.3", "info": {"title": "t", "ver
 // that overrides and one that adds; the same item component is used by two paths and by a webhook
 // (where the path parameter means nothing and is dropped), a second webhook declares such parameters
 // in place.  Whatever list of parameters the operations of an item share must not be edited for one
-// of them.
+// of them.  Two parameters take their schema from components (an array, an object): a mutation that
+// closes a cycle inside such a component reaches the parameter code.
 const PathItemsSpec = `{"openapi":"3.1.0","info":{"title":"t","version":"1"},
 "paths":{
  "/a/{id}":{"$ref":"#/components/pathItems/Item"},
@@ -171,8 +177,40 @@ const PathItemsSpec = `{"openapi":"3.1.0","info":{"title":"t","version":"1"},
    "post":{"operationId":"whPost","requestBody":{"content":{"application/json":{"schema":{"type":"object","properties":{"a":{"type":"string"}}}}}},"responses":{"200":{"description":"ok"}}},
    "put":{"operationId":"whPut","responses":{"200":{"description":"ok"}}},
    "delete":{"operationId":"whDelete","responses":{"204":{"description":"ok"}}}}},
-"components":{"pathItems":{"Item":{"parameters":[{"name":"id","in":"path","required":true,"schema":{"type":"string"}},{"name":"X-Trace-Id","in":"header","schema":{"type":"string"}},{"name":"limit","in":"query","schema":{"type":"integer","default":10}}],
+"components":{"schemas":{"Tags":{"type":"array","items":{"type":"string","maxLength":8}},"Filter":{"type":"object","properties":{"name":{"type":"string"},"n":{"type":"integer"}}}},
+ "pathItems":{"Item":{"parameters":[{"name":"id","in":"path","required":true,"schema":{"type":"string"}},{"name":"X-Trace-Id","in":"header","schema":{"type":"string"}},{"name":"limit","in":"query","schema":{"type":"integer","default":10}},{"name":"tags","in":"query","schema":{"$ref":"#/components/schemas/Tags"}},{"name":"filter","in":"query","style":"deepObject","explode":true,"schema":{"$ref":"#/components/schemas/Filter"}}],
    "get":{"responses":{"200":{"description":"ok"}}},
    "put":{"responses":{"200":{"description":"ok"}}},
    "delete":{"responses":{"204":{"description":"ok"}}},
    "post":{"parameters":[{"name":"limit","in":"query","schema":{"type":"string"}}],"responses":{"200":{"description":"ok"}}}}}}}`
+
+// DiamondDefaults: two operations whose default responses have equal schemas under different names,
+// each a chain of n objects that refer twice to the next one (2^n paths, n components).  Whatever
+// compares or walks them has to remember what it has done.
+func DiamondDefaults(n int) string {
+	var sb strings.Builder
+	sb.WriteString(`{"openapi":"3.0.3","info":{"title":"t","version":"1"},"paths":{`)
+	for i, p := range []string{"A", "B"} {
+		if i > 0 {
+			sb.WriteString(",")
+		}
+		fmt.Fprintf(&sb, `"/%s":{"get":{"operationId":"op%s","responses":{"200":{"description":"ok"},"default":{"description":"error","content":{"application/json":{"schema":{"$ref":"#/components/schemas/%s00"}}}}}}}`, strings.ToLower(p), p, p)
+	}
+	sb.WriteString(`},"components":{"schemas":{`)
+	first := true
+	for _, p := range []string{"A", "B"} {
+		for i := 0; i < n; i++ {
+			if !first {
+				sb.WriteString(",")
+			}
+			first = false
+			if i == n-1 {
+				fmt.Fprintf(&sb, `"%s%02d":{"type":"object","required":["code"],"properties":{"code":{"type":"integer"},"message":{"type":"string"}}}`, p, i)
+			} else {
+				fmt.Fprintf(&sb, `"%s%02d":{"type":"object","properties":{"l":{"$ref":"#/components/schemas/%s%02d"},"r":{"$ref":"#/components/schemas/%s%02d"},"v":{"type":"string"}}}`, p, i, p, i+1, p, i+1)
+			}
+		}
+	}
+	sb.WriteString(`}}}`)
+	return sb.String()
+}
